@@ -302,4 +302,120 @@ def TimeClass.ok : TimeClass → Bool
   | .forward => true
   | _ => false
 
+/-! ### The time argument of a call site, derived from the tick structure
+
+`Engine.tick(tick_time, …)` and `PInterpreter.tick_iterate_subticks(tick_time, …)` are translated into statement
+lists (`Stmt`) in evaluation order; the expression a call site passes as tick time is translated into `ArgExpr`.
+The model evaluates that expression in the environment the statement list produces at the phase (the call
+statement of `Engine.tick`) during which the site runs — it does not take the time from the implementation. -/
+
+/-- the translated time-argument expression of a call site -/
+inductive ArgExpr where
+  /-- the `tick_time` parameter of the enclosing function (handed down from `Engine.tick`, table `tickTimeCalls`) -/
+  | param
+  /-- `Engine._tick_time` -/
+  | engineField
+  /-- `PInterpreter._tick_time` -/
+  | interpField
+  /-- `time.time()` / `time.monotonic()` -/
+  | wall
+  | tickNumber
+  /-- `*args` of an overriding wrapper -/
+  | forward
+  | other
+deriving Repr, DecidableEq
+
+inductive Stmt where
+  /-- `self._tick_time = <rhs>` -/
+  | assign (target : String) (rhs : ArgExpr)
+  /-- `tag.tick_time = <rhs>` for the system tags (first tick) -/
+  | stamp (rhs : ArgExpr)
+  /-- a call, with the translated first positional argument -/
+  | call (name : String) (arg0 : Option ArgExpr)
+deriving Repr, DecidableEq
+
+structure Env where
+  /-- the `tick_time` argument of the running `Engine.tick` -/
+  param : Time
+  engineField : Time
+  interpField : Time
+  wall : Time
+  tickNumber : Time
+deriving Repr, DecidableEq
+
+def Env.init : Env := ⟨0, 0, 0, 0, -1⟩
+
+def evalArg (e : Env) (fwd oth : Time) : ArgExpr → Time
+  | .param => e.param
+  | .engineField => e.engineField
+  | .interpField => e.interpField
+  | .wall => e.wall
+  | .tickNumber => e.tickNumber
+  | .forward => fwd
+  | .other => oth
+
+def ArgExpr.ok : ArgExpr → Bool
+  | .param => true
+  | .engineField => true
+  | .interpField => true
+  | .wall => true
+  | .forward => true
+  | _ => false
+
+/-- calls of `Engine.tick` that cannot reach a tag (timer, container access, logging) -/
+def structuralCall (name : String) : Bool :=
+  name = "self._tick_timer.stop" || name = "self._system_tags.tags.values" ||
+  name.startsWith "logger." || name.startsWith "frontend_logger."
+
+/-- calls that hand the tick time down (their first argument is the callee's `tick_time`) -/
+def timeCallee (name : String) : Bool :=
+  name = "self.interpreter.tick" || name = "self.tracking.tick" || name = "self._command_manager.tick" ||
+  name = "self.update_calculated_tags" || name = "self.emitter.emit_on_tick"
+
+/-- `Engine.tick`: effect of one statement on the environment (only the field assignment has one) -/
+def execEngineStmt (e : Env) : Stmt → Env
+  | .assign _ rhs => { e with engineField := evalArg e 0 0 rhs }
+  | _ => e
+
+/-- run `Engine.tick`'s statements up to the call named `phase` (the first one); returns the environment at that
+    call, the argument expression of the call and the statements after it -/
+def advance (phase : String) : List Stmt → Env → Option (Env × Option ArgExpr × List Stmt)
+  | [], _ => none
+  | .call n a :: rest, e => if n = phase then some (e, a, rest) else advance phase rest e
+  | s :: rest, e => advance phase rest (execEngineStmt e s)
+
+/-- run up to the bulk stamp of the first tick -/
+def advanceStamp : List Stmt → Env → Option (Env × ArgExpr × List Stmt)
+  | [], _ => none
+  | .stamp rhs :: rest, e => some (e, rhs, rest)
+  | s :: rest, e => advanceStamp rest (execEngineStmt e s)
+
+/-- entering `PInterpreter.tick(<arg>)`: the callee's parameter is the argument; its leading assignments set the
+    interpreter's own field -/
+def enterInterp (stmts : List Stmt) (e : Env) (arg : Time) : Env :=
+  let rec go : List Stmt → Env → Env
+    | .assign _ rhs :: rest, e' => go rest { e' with interpField := evalArg { e' with param := arg } 0 0 rhs }
+    | _, e' => e'
+  go stmts e
+
+/-- start of `Engine.tick(t, …)`: parameter bound, tick number incremented; the wall clock reads `wall` -/
+def Env.enterTick (e : Env) (t wall : Time) : Env :=
+  { e with param := t, wall := wall, tickNumber := e.tickNumber + 1 }
+
+/-- abstract check of a statement list: every call that can reach a tag runs after `self._tick_time = tick_time`
+    (`fresh`), every bulk stamp and every handed-down time argument is the parameter (or the fresh field) -/
+def freshOK : Bool → List Stmt → Bool
+  | _, [] => true
+  | _, .assign _ rhs :: rest => freshOK (rhs = .param) rest
+  | f, .stamp rhs :: rest => (rhs = .param || (rhs = .engineField && f)) && freshOK f rest
+  | f, .call n a :: rest =>
+    (structuralCall n || f) &&
+    (!timeCallee n || a = some .param || (a = some .engineField && f)) && freshOK f rest
+
+/-- `tick_iterate_subticks`: the first statement assigns the field from the parameter, before any generator is
+    stepped -/
+def interpOK : List Stmt → Bool
+  | .assign _ .param :: _ => true
+  | _ => false
+
 end OPM.Tags
